@@ -370,9 +370,15 @@ def _collect_bound_values(
         if isinstance(node, GraphNode):
             # Get bound values from the inner graph
             inner_bound = node.graph.inputs.bound
-            # Merge into all_bound (current graph's values take precedence)
-            for key, value in inner_bound.items():
-                if key not in all_bound:
-                    all_bound[key] = value
+            if not inner_bound:
+                continue
+            # An inner binding surfaces in this graph under the name the wrapper
+            # exposes the parameter as (its current, possibly renamed, input name),
+            # never under the inner graph's private name.
+            for outer_name in node.inputs:
+                inner_name = next(iter(node.map_inputs_to_params({outer_name: None})))
+                # Merge into all_bound (current graph's values take precedence)
+                if inner_name in inner_bound and outer_name not in all_bound:
+                    all_bound[outer_name] = inner_bound[inner_name]
 
     return all_bound
